@@ -41,14 +41,14 @@ Hypothesis HN : NORM_LIM P = 1 - BIAS P \/ NORM_LIM P = 2 - BIAS P.
 (** fbig2_to_float_short with the length condition on the normal form (covers the carry 2^(MB+1)) *)
 Lemma fbig2_to_float_short_nf m s e :
   s <> 0 -> blen (Z.abs (fst (normalize 2 s e))) <= MB P + 1 ->
-  fbig2_to_float P m s e =
+  fbig2_to_float_old P m s e =
     FR (fst (ieee_rne (fmt_of P) (fst (frac_of s e)) (snd (frac_of s e))))
        (short_flag P s e (snd (ieee_rne (fmt_of P) (fst (frac_of s e)) (snd (frac_of s e))))).
 Proof.
   intros Hs Hb.
   pose proof (normalize_spec 2 ltac:(lia) s e) as Hnz.
-  assert (E0 : fbig2_to_float P m s e = fbig2_to_float P m (fst (normalize 2 s e)) (snd (normalize 2 s e))).
-  { unfold fbig2_to_float. destruct (normalize 2 s e) as [s0 e0]. cbn [fst snd].
+  assert (E0 : fbig2_to_float_old P m s e = fbig2_to_float_old P m (fst (normalize 2 s e)) (snd (normalize 2 s e))).
+  { unfold fbig2_to_float_old. destruct (normalize 2 s e) as [s0 e0]. cbn [fst snd].
     destruct Hnz as [_ Hnz]. destruct (Hnz Hs) as (_ & Hodd & _).
     rewrite (normalize_id 2 s0 e0) by (assumption || lia). reflexivity. }
   rewrite E0. clear E0. destruct (normalize 2 s e) as [s0 e0]. cbn [fst snd] in *.
@@ -66,7 +66,7 @@ Proof.
 Qed.
 
 Theorem fbig2_to_float_two_step_normalized m s0 e0 : s0 mod 2 <> 0 ->
-  fbig2_to_float P m s0 e0 = two_step P m s0 e0.
+  fbig2_to_float_old P m s0 e0 = two_step P m s0 e0.
 Proof.
   intros Hodd. assert (Hs : s0 <> 0) by (intros ->; apply Hodd; reflexivity).
   unfold two_step. cbv zeta.
@@ -83,9 +83,9 @@ Proof.
     (* the second step is the conversion of s1 * 2^(e0 + k), which needs no first rounding *)
     assert (Hnf : blen (Z.abs (fst (normalize 2 s1 (e0 + k)))) <= MB P + 1).
     { rewrite <- dlen2_blen. apply (normalize_sig_bound 2 ltac:(lia)); lia. }
-    assert (E2 : fbig2_to_float P m s0 e0 = fr_and_then (Some a) (fbig2_to_float P m s1 (e0 + k))).
-    { unfold fbig2_to_float at 1. rewrite (normalize_id 2 s0 e0) by (assumption || lia). rewrite Er.
-      unfold fbig2_to_float. destruct (normalize 2 s1 (e0 + k)) as [s2 e2]. cbn [fst] in Hnf.
+    assert (E2 : fbig2_to_float_old P m s0 e0 = fr_and_then (Some a) (fbig2_to_float_old P m s1 (e0 + k))).
+    { unfold fbig2_to_float_old at 1. rewrite (normalize_id 2 s0 e0) by (assumption || lia). rewrite Er.
+      unfold fbig2_to_float_old. destruct (normalize 2 s1 (e0 + k)) as [s2 e2]. cbn [fst] in Hnf.
       rewrite repr_round_exact by (rewrite dlen2_blen; exact Hnf). reflexivity. }
     rewrite E2. rewrite (fbig2_to_float_short_nf m s1 (e0 + k) Hs1 Hnf).
     assert (Hk : 1 <= k) by (unfold k; lia).
@@ -96,11 +96,11 @@ Qed.
 
 (** any finite non-zero representation *)
 Theorem fbig2_to_float_two_step m s e : s <> 0 ->
-  fbig2_to_float P m s e = two_step P m (fst (normalize 2 s e)) (snd (normalize 2 s e)).
+  fbig2_to_float_old P m s e = two_step P m (fst (normalize 2 s e)) (snd (normalize 2 s e)).
 Proof.
   intros Hs. pose proof (normalize_spec 2 ltac:(lia) s e) as Hnz.
-  assert (E0 : fbig2_to_float P m s e = fbig2_to_float P m (fst (normalize 2 s e)) (snd (normalize 2 s e))).
-  { unfold fbig2_to_float. destruct (normalize 2 s e) as [s0 e0]. cbn [fst snd].
+  assert (E0 : fbig2_to_float_old P m s e = fbig2_to_float_old P m (fst (normalize 2 s e)) (snd (normalize 2 s e))).
+  { unfold fbig2_to_float_old. destruct (normalize 2 s e) as [s0 e0]. cbn [fst snd].
     destruct Hnz as [_ Hnz]. destruct (Hnz Hs) as (_ & Hodd & _).
     rewrite (normalize_id 2 s0 e0) by (assumption || lia). reflexivity. }
   rewrite E0. destruct (normalize 2 s e) as [s0 e0]. cbn [fst snd].
@@ -174,13 +174,13 @@ End Whole.
 (* ------------------------------------------------------------------ instances *)
 
 Theorem fbig2_to_f32_two_step m s e : s <> 0 ->
-  fbig2_to_float P32 m s e = two_step P32 m (fst (normalize 2 s e)) (snd (normalize 2 s e)).
+  fbig2_to_float_old P32 m s e = two_step P32 m (fst (normalize 2 s e)) (snd (normalize 2 s e)).
 Proof.
   intros. apply (fbig2_to_float_two_step P32); [cbn; lia | cbn; lia | reflexivity | cbn; lia | reflexivity | reflexivity | right; reflexivity | assumption].
 Qed.
 
 Theorem fbig2_to_f64_two_step m s e : s <> 0 ->
-  fbig2_to_float P64 m s e = two_step P64 m (fst (normalize 2 s e)) (snd (normalize 2 s e)).
+  fbig2_to_float_old P64 m s e = two_step P64 m (fst (normalize 2 s e)) (snd (normalize 2 s e)).
 Proof.
   intros. apply (fbig2_to_float_two_step P64); [cbn; lia | cbn; lia | reflexivity | cbn; lia | reflexivity | reflexivity | left; reflexivity | assumption].
 Qed.
@@ -218,7 +218,7 @@ Proof. reflexivity. Qed.
     the second one (the value-level witness) *)
 Example two_step_examples :
   two_step P32 MHalfEven 3 (-151) = FR 1 (Some NoOp) /\
-  fbig2_to_float P32 MHalfEven (2 ^ 25 + 23) (-153) = two_step P32 MHalfEven (2 ^ 25 + 23) (-153) /\
+  fbig2_to_float_old P32 MHalfEven (2 ^ 25 + 23) (-153) = two_step P32 MHalfEven (2 ^ 25 + 23) (-153) /\
   two_step P32 MHalfEven (2 ^ 25 + 23) (-153) = FR (2 ^ 21 + 2) (Some NoOp) /\
   two_step P64 MDown (2 ^ 60 + 1) 0 = FR 4877398396442247168 (Some NoOp).
 Proof. vm_compute. repeat split; reflexivity. Qed.
